@@ -84,11 +84,6 @@ func objOf(info *types.Info, e ast.Expr) types.Object {
 	return nil
 }
 
-// isObj reports whether e is an identifier denoting obj.
-func isObj(info *types.Info, e ast.Expr, obj types.Object) bool {
-	return obj != nil && objOf(info, e) == obj
-}
-
 // mentions reports whether expression e mentions obj.
 func mentions(info *types.Info, e ast.Node, obj types.Object) bool {
 	found := false
@@ -110,20 +105,6 @@ func typeName(t types.Type) string {
 		return t.Obj().Name()
 	case *types.Alias:
 		return typeName(types.Unalias(t))
-	}
-	return t.String()
-}
-
-// qualTypeName: pkgname.Name (or *pkgname.Name).
-func qualTypeName(t types.Type) string {
-	switch t := t.(type) {
-	case *types.Pointer:
-		return "*" + qualTypeName(t.Elem())
-	case *types.Named:
-		if t.Obj().Pkg() != nil {
-			return t.Obj().Pkg().Name() + "." + t.Obj().Name()
-		}
-		return t.Obj().Name()
 	}
 	return t.String()
 }
@@ -314,16 +295,6 @@ func (p *Prog) InfoOf(f *types.Func) *types.Info {
 	return nil
 }
 
-// fileOf returns the file (syntax) containing pos in pkg.
-func fileOf(pk *packages.Package, pos token.Pos) *ast.File {
-	for _, f := range pk.Syntax {
-		if f.Pos() <= pos && pos <= f.End() {
-			return f
-		}
-	}
-	return nil
-}
-
 // named returns the *types.Named behind t (through pointers/aliases), or nil.
 func named(t types.Type) *types.Named {
 	t = types.Unalias(t)
@@ -361,37 +332,3 @@ func constInt64(c *types.Const) (int64, bool) {
 }
 
 type pkgT = packages.Package
-
-// litThroughHelper resolves e to a composite literal: e itself, or — when e is a call
-// x.m() of a zero-argument repo method on the value `recv` whose body is a single
-// `return <composite literal>` — that literal, together with the types.Info and the
-// receiver variable in whose terms it is written.
-func litThroughHelper(p *Prog, info *types.Info, e ast.Expr, recv types.Object) (*ast.CompositeLit, *types.Info, types.Object) {
-	e = unparen(e)
-	if lit, ok := e.(*ast.CompositeLit); ok {
-		return lit, info, recv
-	}
-	call, ok := e.(*ast.CallExpr)
-	if !ok || len(call.Args) != 0 {
-		return nil, nil, nil
-	}
-	sel, ok := unparen(call.Fun).(*ast.SelectorExpr)
-	if !ok || objOf(info, sel.X) != recv || recv == nil {
-		return nil, nil, nil
-	}
-	f := callee(info, call)
-	fd := p.Decl(f)
-	if fd == nil || len(fd.Body.List) != 1 {
-		return nil, nil, nil
-	}
-	r, ok := fd.Body.List[0].(*ast.ReturnStmt)
-	if !ok || len(r.Results) != 1 {
-		return nil, nil, nil
-	}
-	lit, ok := unparen(r.Results[0]).(*ast.CompositeLit)
-	if !ok {
-		return nil, nil, nil
-	}
-	finfo := p.InfoOf(f)
-	return lit, finfo, receiverVar(finfo, fd)
-}
